@@ -20,12 +20,15 @@ META = dict(
     assumptions=['L1: the inputs of a stage satisfy the dataset contract (len >= 0, ds[j] defined exactly on [-len, len), IndexError elsewhere)',
                  'L2: the probe index i is any integer in [-LB-2, LB+2) where LB is the structural upper bound of the pipeline length',
                  'cycle() is excluded (finite datasets)'],
-    bounds=dict(quick='L1: concatenate of 2 and 3 parts, zip, map, cache: lengths and index unbounded; batch bs in 1..3 length <= 10^6; slice/intersperse lengths <= 4; '
+    bounds=dict(quick='L1: concatenate of 2 and 3 parts, map: lengths and index unbounded; batch bs 1..3: non-negative index unbounded, len/negative index at length <= 12; zip length <= 12; cache length <= 6; slice/intersperse lengths <= 3/4; '
                       'L2: depth-1 programs n<=3 and op-class pairs (n=2), one symbolic index; numpy integer index over [-n-2, n+2) at depth 1; '
                       'E3: L < 2^16, b in 1..4',
                 thorough='L1 as quick with batch bs 1..4; L2: all depth-2 pairs n<=3; E3: L < 2^31, b in 1..8'),
     outside=['batch sizes > 4 at L1', 'L >= 2^31 for the float formula', 'depth > 2 at L2'],
 )
+
+
+KF_ITEMS = 'KF-C02-items-dupkeys-int-index'
 
 
 # ----------------------------------------------------------------------------- L1
@@ -63,6 +66,7 @@ def body_concat3(l0, l1, l2, i):
 
 def body_zip(l0, i):
     rt.assume(l0 >= 0)
+    rt.assume(l0 <= 12)          # ZipDataset.__init__ hashes the lengths (len(set(lengths)) == 1): a symbolic length is realised there
     ds = ZipDataset(AbsDS(0, l0), AbsDS(1, l0))
     rt.reached()
     return _check_index_contract(ds, l0, i, lambda j: ((0, j), (1, j)))
@@ -70,6 +74,11 @@ def body_zip(l0, i):
 
 def body_map_cache(kind, l0, i, i2):
     rt.assume(l0 >= 0)
+    if kind == 'cache':
+        # the cache is a dict keyed by the index: hashing realises a symbolic index, so the probes are bounded here
+        rt.assume(l0 <= 6)
+        rt.assume(-9 <= i <= 8)
+        rt.assume(-9 <= i2 <= 8)
     base = AbsDS(0, l0)
     if kind == 'map':
         ds = MapDataset(lambda ex: (ex, 'm'), base)
@@ -83,10 +92,31 @@ def body_map_cache(kind, l0, i, i2):
     return ok and ok2
 
 
+def body_batch_nonneg(bs, drop, l0, i):
+    """non-negative index, unbounded length and index: __getitem__ does not go through the float __len__"""
+    rt.assume(0 <= l0)
+    rt.assume(0 <= i)
+    ds = BatchDataset(AbsDS(0, l0), bs, drop)
+    nb = l0 // bs if drop else (l0 + bs - 1) // bs
+    try:
+        got = ds[i]
+    except IndexError:
+        rt.reached()
+        return not (i < nb)
+    rt.reached()
+    if not (i < nb):
+        return False
+    want = []
+    for d in range(bs):
+        if i * bs + d < l0:
+            want.append((0, i * bs + d))
+    return got == want
+
+
 def body_batch(bs, drop, l0, i):
     rt.pin_real_floats()
-    rt.assume(0 <= l0)
-    rt.assume(l0 <= 1000000)
+    # 0 <= l0 <= 12 is a `pre:` of the condition (Family.pre): len() and negative indices go through
+    # int(np.ceil(len / bs)) and int() of a symbolic float realises it
     ds = BatchDataset(AbsDS(0, l0), bs, drop)
     nb = l0 // bs if drop else (l0 + bs - 1) // bs
 
@@ -118,7 +148,7 @@ def _realise(j, n):
 def body_slice_idx(m, l0, j0, j1, j2, i):
     """SliceDataset over an arbitrary valid index vector of length m"""
     rt.assume(0 <= l0)
-    rt.assume(l0 <= 4)
+    rt.assume(l0 <= 3)
     js = rt.mk(m, [j0, j1, j2])
     for j in js:
         rt.assume(-l0 <= j)
@@ -155,6 +185,9 @@ def body_index(backing, n, ops, *args):
     if not ref.iter_ok:
         rt.reached()
         return True
+    if rt.known(KF_ITEMS) and ref.keys is not None and not U.keys_unique(ref.keys) and any(o[0] == 'items' for o in ops):
+        rt.reached()
+        return True          # known finding: integer indexing of items() over duplicate keys
     it = list(ds)
     rt.reached()
     try:
@@ -223,6 +256,9 @@ def _l2_conditions(tier, seed):
         for a, b in U.class_pairs(U.ALPHABET):
             if a[0] in sel and b[0] in sel:
                 continue
+            if a[0] in ('cat_b', 'isp_b') and b[0] in sel:
+                add('dict', 1, (a, b))      # n + 3 examples under a symbolic selection: keep the quick tier small
+                continue
             add('dict', 2, (a, b))
     else:
         for backing in ('list', 'dict'):
@@ -258,11 +294,13 @@ FAMILIES = [
     Family('L1_concat3', body_concat3, [], INTS('l0', 'l1', 'l2', 'i'), lambda t, s: [()], timeout=60, desc='ConcatenateDataset, 3 parts, unbounded'),
     Family('L1_zip', body_zip, [], INTS('l0', 'i'), lambda t, s: [()], timeout=60, desc='ZipDataset, unbounded'),
     Family('L1_map_cache', body_map_cache, ['kind'], INTS('l0', 'i', 'i2'), lambda t, s: [('map',), ('cache',)], timeout=60, desc='MapDataset / CacheDataset, unbounded'),
-    Family('L1_batch', body_batch, ['bs', 'drop'], INTS('l0', 'i'), _batch_conds, timeout=dict(quick=90, thorough=600), desc='BatchDataset index contract, length <= 10^6'),
+    Family('L1_batch', body_batch, ['bs', 'drop'], INTS('l0', 'i'), _batch_conds, pre=lambda sel: ['0 <= l0 <= 12'], timeout=dict(quick=90, thorough=600), desc='BatchDataset len + index contract (both signs), length <= 12'),
+    Family('L1_batch_nonneg', body_batch_nonneg, ['bs', 'drop'], INTS('l0', 'i'), _batch_conds, timeout=dict(quick=90, thorough=600),
+           desc='BatchDataset non-negative index, unbounded length and index'),
     Family('L1_intersperse', body_intersperse, ['l0', 'l1'], INTS('i'), lambda t, s: [(a, b) for a in range(1, 5) for b in range(1, 5)], timeout=60,
            desc='IntersperseDataset order table, lengths 1..4 x 1..4, unbounded index'),
-    Family('L1_slice_idx', body_slice_idx, ['m'], INTS('l0', 'j0', 'j1', 'j2', 'i'), lambda t, s: [(m,) for m in range(0, 4)], timeout=dict(quick=90, thorough=600),
-           desc='SliceDataset over an arbitrary valid index vector'),
+    Family('L1_slice_idx', body_slice_idx, ['m'], INTS('l0', 'j0', 'j1', 'j2', 'i'), lambda t, s: [(m,) for m in range(0, (3 if t == 'quick' else 4))], timeout=dict(quick=90, thorough=900),
+           desc='SliceDataset over an arbitrary valid index vector (input length <= 3)'),
     Family('L1_slice_ab', body_slice_ab, ['form'], INTS('l0', 'a', 'b', 'i'), lambda t, s: [(f,) for f in U.SLICE_FORMS], timeout=dict(quick=90, thorough=600),
            desc='SliceDataset over slice(a, b, step), unbounded bounds and index'),
     Family('L2_index', body_index, ['backing', 'n', 'ops'], U.POOL_PARAMS + [('i', 'int')], _l2_conditions, timeout=dict(quick=60, thorough=300),
